@@ -12,7 +12,7 @@ from typing import Any, Dict, List, Optional, Tuple
 from hivemon.common import EVIDENCE, ROOT
 
 KNOWN = ROOT / "known_findings.json"
-REPLAYS = ROOT / "replays"
+REPLAYS = Path(os.environ.get("HIVEMON_REPLAYS", ROOT / "replays"))
 
 HELD, VIOLATED, INCONCLUSIVE = 0, 1, 2
 
